@@ -75,7 +75,7 @@ def renderNet : NetAct → String
 def updKind : UpdateOut → String
   | .noUpdate => "none" | .installed => "inst" | .badPatch => "bad" | .errNotInit => "cfg"
   | .errBusy => "busy" | .errCheck => "check" | .errBadResponse => "badresp" | .errDownload => "dl"
-  | .errBase => "other" | .errInflate => "other" | .errHash => "hash"
+  | .errBase => "other" | .errInflate => "other" | .errHash => "hash" | .errSignature => "sig"
 
 def renderRet : Ret → String
   | .unit => "u"
@@ -123,12 +123,12 @@ def renderObs (o : Obs) : String :=
     | some (arts, junk) => s!"pd={joinWith "," (arts.map renderArt)} junk={joinWith "," ((sortStrs junk).map encTok)}"
   s!"ret={renderRet o.ret} net={joinWith "," (o.net.map renderNet)} {sj} {pj} {pd}"
 
-/-- Observation of a model world; `keys` = every patch number mentioned in the history. -/
-def obsOf (w : World) (ret : Ret) (net : List NetAct) (keys : List Nat) : Obs :=
+/-- Observation of a model world (directory listing sorted by number). -/
+def obsOf (w : World) (ret : Ret) (net : List NetAct) : Obs :=
   { ret := ret, net := net, sj := w.disk.stateJson, pj := w.disk.patchesJson,
     pd := match w.disk.patches with
       | none => none
-      | some p => some ((sortNats keys).filterMap (fun n => (p.arts n).map (n, ·)), p.junk) }
+      | some p => some ((sortNats (p.arts.map (·.1)).eraseDups).filterMap (fun n => (p.arts.lookup n).map (n, ·)), p.junk) }
 
 /-! ### parsing -/
 
@@ -174,6 +174,7 @@ def parseUpdKind (code : String) (k : String) : Option UpdateOut :=
   | "-1", "dl" => some .errDownload
   | "-1", "other" => some .errInflate
   | "-1", "hash" => some .errHash
+  | "-1", "sig" => some .errSignature
   | _, _ => none
 
 def parseRet (s : String) : Option Ret :=
